@@ -4,6 +4,7 @@ from pyvc.engine import Unit
 from pyvc.spec import And, Or, Not, ite, Implies, is_instance, type_of, new_object
 from pyvc.path import RaiseEx, PathEnd
 from pyvc.values import SBytes, values_equal, SObj, Closure
+import checks.drv_common  # noqa: F401  (registers the driver classes as init-built)
 from pyvc.aio import World, install, MQueue
 from pyvc.loops import LoopSpec
 from pyvc import sym
